@@ -82,7 +82,7 @@ def read_out(path):
 STALL_S = 150  # a worker whose output has not grown for this long is stuck: dumped, killed and reported (exit 2)
 
 
-def run_batch(binpath, scratch, prop, tier, seed0, total, legs, wall_budget, extra_env=None, one_per_process=False):
+def run_batch(binpath, scratch, prop, tier, seed0, total, legs, wall_budget, extra_env=None, one_per_process=False, stall_s=None):
     """Run `total` seeds over NCPU processes. Returns (results, crashes)."""
     progress = {}  # worker -> (size of its out file, time of last growth)
     nw = min(NCPU, max(1, total))
@@ -129,7 +129,7 @@ def run_batch(binpath, scratch, prop, tier, seed0, total, legs, wall_budget, ext
                     sz = 0
                 if progress.get(w, (None, 0))[0] != (wk.out, sz):
                     progress[w] = ((wk.out, sz), time.time())
-                elif time.time() - progress[w][1] > STALL_S:
+                elif time.time() - progress[w][1] > (stall_s or STALL_S):
                     wk.p.send_signal(signal.SIGQUIT)
                     try:
                         wk.p.wait(timeout=20)
@@ -141,7 +141,7 @@ def run_batch(binpath, scratch, prop, tier, seed0, total, legs, wall_budget, ext
                     done = {r["result"]["k"] for r in res}
                     bad = [s_ for s_ in starts if s_["start"] not in done]
                     err = open(wk.errpath, errors="replace").read()
-                    raise Stalled("a run made no progress for %d s of wall time (%s); goroutine dump:\n%s" % (STALL_S, bad[-1] if bad else "?", err[-6000:]))
+                    raise Stalled("a run made no progress for %d s of wall time (%s); goroutine dump:\n%s" % (stall_s or STALL_S, bad[-1] if bad else "?", err[-6000:]))
                 if time.time() > deadline:
                     wk.p.kill()
                     wk.p.wait()
@@ -378,7 +378,7 @@ def _main(args, prop, cfg, tier, seed0, t0, scratch):
 
     total = args.runs or cfg["runs"][tier]
     budget = cfg.get("budget", {"quick": 240, "thorough": 3600})[tier]
-    results, crashes, timed_out = run_batch(binpath, scratch, prop, tier, seed0, total, legs, budget, extra_env=cfg.get("env"), one_per_process=cfg.get("one_per_process", False))
+    results, crashes, timed_out = run_batch(binpath, scratch, prop, tier, seed0, total, legs, budget, extra_env=cfg.get("env"), one_per_process=cfg.get("one_per_process", False), stall_s=cfg.get("stall_s"))
     wall_runs = time.time() - t0
     known = [] if args.ignore_known else load_known()
 
@@ -415,7 +415,7 @@ def _main(args, prop, cfg, tier, seed0, t0, scratch):
     nondeterministic = []
     missing = []
     rdir = os.path.join(scratch, "replays")
-    keepdir = os.path.join(VERIF, "replays")
+    keepdir = os.path.join(VERIF, "replays") if build.REPO.rstrip("/") == "/repo" else os.environ.get("VERIF_REPLAYS", "/tmp/verif-exp-replays")
     os.makedirs(keepdir, exist_ok=True)
     min_budget = {"quick": 45, "thorough": 300}[tier]
     for (leg, cls), items in groups.items():
@@ -565,9 +565,21 @@ def write_evidence(prop, cfg, tier, seed0, results, crashes, known_hits, out_rep
         "wall_s": round(wall, 2),
         "violations": len(out_replays),
     }
+    if build.REPO.rstrip("/") != "/repo":
+        # an experiment against another tree (VERIF_REPO): never overwrite the evidence of /repo
+        d = os.environ.get("VERIF_EVIDENCE", "/tmp/verif-exp-evidence")
+        os.makedirs(d, exist_ok=True)
+        with open(os.path.join(d, prop + ".json"), "w") as f:
+            json.dump(ev, f, indent=1, sort_keys=True)
+        return
     os.makedirs(os.path.join(VERIF, "evidence"), exist_ok=True)
     with open(os.path.join(VERIF, "evidence", prop + ".json"), "w") as f:
         json.dump(ev, f, indent=1, sort_keys=True)
+    if tier == "thorough":
+        # the quick tier rewrites evidence/<ID>.json on every change; keep the last thorough run beside it
+        os.makedirs(os.path.join(VERIF, "evidence", "thorough"), exist_ok=True)
+        with open(os.path.join(VERIF, "evidence", "thorough", prop + ".json"), "w") as f:
+            json.dump(ev, f, indent=1, sort_keys=True)
 
 
 if __name__ == "__main__":
